@@ -535,6 +535,43 @@ let dispatch args =
           with Opaque -> "OPAQUE")
   | _ -> "BAD-ARGS"
 
+(* ---- reload / load balancer ---------------------------------------------------------- *)
+
+let reload_seq args =
+  match args with
+  | conns :: steps :: l :: s :: t :: f :: texts -> (
+      let rq = match mk_request (l :: "-" :: f :: s :: t :: texts) with Some r -> r | None -> default_request in
+      let opaque = ref false in
+      let ops =
+        List.map
+          (fun st ->
+            if String.length st > 0 && st.[0] = 'S' then (
+              let srcs = parse_rules (String.sub st 1 (String.length st - 1)) in
+              if List.exists (fun (_, fo) -> match fo with Some b -> List.exists (fun c -> int_of_n c = 96) b || not (utf8_valid b) | None -> false) srcs then opaque := true;
+              RSet srcs)
+            else if st = "I" then RIdentity
+            else RProbe (rq, n_of_int (feature_code f)))
+          (split_on '|' steps)
+      in
+      if !opaque then "OPAQUE"
+      else
+        try
+          let outs = x_rrun regex_oracle cidr_oracle default_request (parse_conns conns) ops in
+          String.concat "|"
+            (List.map
+               (function
+                 | RoSet true -> "OK"
+                 | RoSet false -> "ERR"
+                 | RoTrace (Ok tr) ->
+                     let full = show_trace tr in
+                     let fl = String.split_on_char ' ' full in
+                     List.nth fl 0 ^ "/" ^ List.nth fl 4
+                 | RoTrace (Panic _) -> raise Model_panic
+                 | RoTrace (Err _) -> "MODEL-ERR")
+               outs)
+        with Opaque -> "OPAQUE")
+  | _ -> "BAD-ARGS"
+
 (* ---- main ----------------------------------------------------------------------------- *)
 
 let run_line ovf line =
@@ -547,6 +584,7 @@ let run_line ovf line =
         | "frag_make" -> frag_make ovf args
         | "frag_rt" -> frag_rt ovf args
         | "dispatch" -> dispatch args
+        | "reload_seq" -> reload_seq args
         | "milu_parse" -> milu_parse args
         | "milu_eval" -> milu_eval args
         | "milu_wf" -> (match args with
